@@ -48,11 +48,23 @@ Definition mon_final (e : eds) (rss : list ers) (nodes : list node) (pods : list
                match es_canary (e_status e) with Some _ => true | None => false end ||
                N.eqb (es_state (e_status e)) ST_CANARY_FAILED
            | None => false end) 14 ++
-  (* C14 at rest: desired = eligible nodes; current = ready = available = daemon pods *)
-  (let nel := count_if (eligible e rss) nodes in
-   let npods := count_if (eds_pod e) pods in
-   let st := e_status e in
-   code_if ((es_desired st =? nel) && (es_current st =? npods) && (es_ready st =? npods) && (es_available st =? npods)) 13).
+  [].
+
+(** C14's quiescence clause on the same final store (used by [C14Check]): desired = eligible nodes; current =
+    ready = available = daemon pods; upToDate = daemon pods of the up-to-date template (the canary replica set's
+    while a canary is in progress, else the active one's) *)
+Definition mon_quiescent (e : eds) (rss : list ers) (nodes : list node) (pods : list pod) : list N :=
+  let nel := count_if (eligible e rss) nodes in
+  let npods := count_if (eds_pod e) pods in
+  let st := e_status e in
+  let live := match es_canary st with
+              | Some c => rs_named e rss (cs_rs c)
+              | None => rs_named e rss (es_active st) end in
+  let nlive := match live with
+               | Some r => count_if (fun p => eds_pod e p && option_eqb N.eqb (p_hash p) (Some (r_tmplgen r))) pods
+               | None => 0 end in
+  code_if ((es_desired st =? nel) && (es_current st =? npods) && (es_ready st =? npods) && (es_available st =? npods)) 18 ++
+  code_if (es_uptodate st =? nlive) 19.
 
 Definition chk (c : case) : list N :=
   match c with
